@@ -52,7 +52,13 @@ RULE = ("correspondence: every (value, bits 1..8, byte order, (width,minwidth) i
         "subprocess; hand-built tags: v2.2 {whole-tag unsynchronisation} (6-byte frame headers: MCI = the payload itself, UFI, TT2, TP1, PIC), v2.3 {whole-tag unsynchronisation} x {plain, compressed frames (4-byte size + zlib)} and v2.4 {tag-level flag} x "
         "{frame flag} x {plain, data length indicator, zlib + data length indicator, zlib without the indicator flag}, zlib streams from "
         "Python's zlib at levels 0/6 (9 in the mixtures), with a sync flush (00 00 FF FF inside) and from a hand-made stored-block writer (NLEN = FF..), "
-        "padded and unpadded, plus random per-frame mixtures; payloads = every alphabet string to length 3 (quick; the three-byte ones on a rotating third of the layouts) / 4, long FF runs, "
+        "padded and unpadded, plus random per-frame mixtures; tag-level unsynchronisation x the other header flags: 0x40 without an "
+        "extended header (body starts with a frame id; v2.3, v2.4), a real extended header (v2.3: 6-byte and 10-byte+CRC forms, inside the "
+        "whole-tag unsynchronisation; v2.4: syncsafe forms minimal / CRC / update+CRC+restrictions), experimental 0x20 (v2.2, v2.3, v2.4), "
+        "footer 0x10 with a 3DI footer (v2.4; ignored bit in v2.2) -- the frames must read exactly as without those flags (not built: v2.2 "
+        "with 0x40 and v2.3 with 0x10, which the reader rejects; v2.3 extended headers whose own CRC bytes need stuffing are judged like the rest, a reader that loses all "
+        "frames behind such a header is reported once per run under the class v23-ext-header-stuffed, with a directed minimal case (found "
+        "by enumeration) in both tiers); payloads = every alphabet string to length 3 (quick; the three-byte ones on a rotating third of the layouts) / 4, long FF runs, "
         "FF 00 runs, random alphabet and random byte strings; five/six frames per tag (MCDI = the payload itself, PRIV x2, UFID, TIT2 "
         "UTF-16 with BOM, TPE1 latin-1) must read back exactly and like the flag-free tag. "
         "non-trivial = value > 0 / non-empty string / rejected input; distinct by (function, parameters, input)")
@@ -175,7 +181,7 @@ class Viol:
     def __call__(self, what, data):
         k = self.n.get(what, 0)
         self.n[what] = k + 1
-        if k < 2:
+        if k < (1 if isinstance(data, dict) and data.get("class") else 2):    # a classified (known-finding) report: once
             self.ctx.violation("oracle", what, data)
 
     def total(self):
@@ -722,6 +728,8 @@ class Built:
         self.stuffed_deflate = 0      # frames whose deflate stream needed stuffed bytes
         self.ff00_plain = 0           # compressed + unsynchronised frames whose plaintext contains FF 00
         self.stuffed = 0              # frames / tags changed by the stuffing at all
+        self.ext_stuffed = False      # v2.3: the whole-tag stuffing changed the extended header itself
+        self.footer = b""
 
 
 def build_layout(layout, payload, zcache=None):
@@ -772,17 +780,62 @@ def build_layout(layout, payload, zcache=None):
                     if b"\xff\x00" in body:
                         B.ff00_plain += 1
             out += fid + struct.pack(">IH", len(data), flags) + data
-    out += b"\x00" * pad
+    ext, xflags = layout.get("ext"), layout.get("xflags", 0)
+    hflags = (0x80 if tu else 0) | xflags
+    exthdr = b""
+    if ext:
+        hflags |= 0x40
+        if ext != "bogus":    # "bogus": the flag without an extended header (the body starts with a frame id)
+            exthdr = ext_header(ver, ext, out, pad)
+    out = exthdr + out + b"\x00" * pad
     if ver in (2, 3) and tu:
         e = ref_unsynch_encode(out)
         B.stuffed += e != out
+        B.ext_stuffed = e[:len(exthdr) + 1] != out[:len(exthdr) + 1]
         out = e
-    B.raw = b"ID3" + bytes([ver, 0, 0x80 if tu else 0]) + syncsafe4(len(out)) + out
+    B.raw = b"ID3" + bytes([ver, 0, hflags]) + syncsafe4(len(out)) + out
+    if ver == 4 and xflags & 0x10:      # footer: the header again under "3DI", not counted in the size
+        B.footer = b"3DI" + B.raw[3:10]
+        B.raw += B.footer
     return B
 
 
-def L(ver, tu, fu, zm, dl, pad=0):
-    return {"version": ver, "tag_unsynch": int(tu), "padding": pad, "frames": [[int(fu), zm, int(dl)]]}
+def syncsafe5(n):
+    return bytes([(n >> 28) & 0x7F]) + syncsafe4(n & ((1 << 28) - 1))
+
+
+def ext_header(ver, ext, frames, pad):
+    """a real extended header, by the ID3v2.3 / v2.4 specification.
+    v2.3: size (plain, excluding itself: 6 or 10), 2 flag bytes (0x8000 = CRC present), size of padding, [CRC-32 of the frames]
+    v2.4: size (syncsafe, whole extended header), number of flag bytes (1), flags (0x40 update, 0x20 CRC, 0x10 restrictions),
+          each set flag followed by a length byte and its data (CRC: 5 syncsafe bytes over frames and padding)"""
+    import zlib
+    if ver == 3:
+        if ext == "v23-6":
+            return struct.pack(">LHL", 6, 0, pad)
+        if ext == "v23-10crc":
+            return struct.pack(">LHLL", 10, 0x8000, pad, zlib.crc32(frames) & 0xFFFFFFFF)
+    if ver == 4:
+        crc = b"\x05" + syncsafe5(zlib.crc32(frames + b"\x00" * pad) & 0xFFFFFFFF)
+        if ext == "v24-min":
+            body = b"\x01\x00"
+        elif ext == "v24-crc":
+            body = b"\x01\x20" + crc
+        elif ext == "v24-all":
+            body = b"\x01\x70" + b"\x00" + crc + b"\x01\xff"
+        else:
+            raise ValueError(ext)
+        return syncsafe4(4 + len(body)) + body
+    raise ValueError((ver, ext))
+
+
+def L(ver, tu, fu, zm, dl, pad=0, ext=None, xflags=0):
+    l = {"version": ver, "tag_unsynch": int(tu), "padding": pad, "frames": [[int(fu), zm, int(dl)]]}
+    if ext:
+        l["ext"] = ext          # "bogus" (flag 0x40 without an extended header) or a real extended header form
+    if xflags:
+        l["xflags"] = xflags    # further header flag bits: 0x20 experimental, 0x10 footer (v2.4)
+    return l
 
 
 def layout_name(l):
@@ -792,7 +845,8 @@ def layout_name(l):
         f = ("frame-unsynch=%d " % fu if l["version"] == 4 else "") + ("z=%s" % (zm or "-") if l["version"] > 2 else "") + (" datalen=%d" % dl if l["version"] == 4 else "")
     else:
         f = "mixed per-frame flags"
-    return "v2.%d tag-unsynch=%d %s%s" % (l["version"], l["tag_unsynch"], f, " padded" if l.get("padding") else "")
+    return "v2.%d tag-unsynch=%d %s%s%s%s" % (l["version"], l["tag_unsynch"], f, " padded" if l.get("padding") else "",
+                                            " ext=%s" % l["ext"] if l.get("ext") else "", " hdrflags+=%02x" % l["xflags"] if l.get("xflags") else "")
 
 
 def uniform_layouts():
@@ -819,19 +873,53 @@ def uniform_layouts():
     return out
 
 
-UNIFORM = uniform_layouts()
+def header_flag_layouts():
+    """tag-level unsynchronisation x the other header flags.  Kept: what the unchanged reader accepts -- v2.2 has no
+    extended header (0x40 there is the compression bit: the tag is rejected), v2.3 rejects 0x10; both are not built."""
+    out = []
+    out.append(L(2, 1, 0, None, 0, 0, None, 0x20))
+    out.append(L(2, 1, 0, None, 0, 7, None, 0x30))
+    for tu in (0, 1):
+        for ext in ("bogus", "v23-6", "v23-10crc"):
+            out.append(L(3, tu, 0, None, 0, 0, ext))
+    out.append(L(3, 1, 0, "hand", 0, 0, "bogus"))
+    out.append(L(3, 1, 0, None, 0, 7, "v23-6"))
+    out.append(L(3, 1, 0, None, 0, 7, "v23-10crc", 0x20))
+    out.append(L(3, 1, 0, None, 0, 0, None, 0x20))
+    out.append(L(3, 1, 0, None, 0, 0, "bogus", 0x20))
+    for tu, fu in ((1, 0), (1, 1), (0, 1)):
+        out.append(L(4, tu, fu, None, 0, 0, "bogus"))
+    out.append(L(4, 1, 0, "hand", 1, 0, "bogus"))
+    for ext in ("v24-min", "v24-crc", "v24-all"):
+        out.append(L(4, 1, 1, None, 0, 0, ext))
+    out.append(L(4, 1, 0, None, 0, 7, "v24-crc"))
+    out.append(L(4, 1, 1, None, 0, 0, None, 0x20))
+    out.append(L(4, 1, 1, None, 0, 0, None, 0x10))
+    out.append(L(4, 1, 0, None, 0, 0, "bogus", 0x30))
+    out.append(L(4, 1, 0, "z6", 1, 0, "v24-all", 0x30))
+    return out
+
+
+UNIFORM = uniform_layouts() + header_flag_layouts()
 # replay files of the earlier, narrower oracle ("fn": "tag", "variant": index)
 OLD_VARIANTS = [L(3, 1, 0, None, 0), L(3, 1, 0, None, 0, 7), L(4, 0, 1, None, 0), L(4, 0, 1, None, 1), L(4, 1, 1, None, 0), L(4, 1, 0, None, 0)]
 
 
 def mixed_layout(rng, ver):
     if ver == 2:
-        return L(2, rng.randrange(2), 0, None, 0, rng.choice((0, 2, 5, 6, 10, 11)))
+        return L(2, rng.randrange(2), 0, None, 0, rng.choice((0, 2, 5, 6, 10, 11)), None, rng.choice((0, 0, 0x20, 0x10, 0x30)))
     fs = []
     for _ in range(6):
         zm = rng.choice((None, None) + ZMODES)
         fs.append([rng.randrange(2) if ver == 4 else 0, zm, (1 if zm else rng.randrange(2)) if ver == 4 else 0])
-    return {"version": ver, "tag_unsynch": rng.randrange(2), "padding": rng.choice((0, 0, 1, 7, 10, 11)), "frames": fs}
+    l = {"version": ver, "tag_unsynch": rng.randrange(2), "padding": rng.choice((0, 0, 1, 7, 10, 11)), "frames": fs}
+    ext = rng.choice((None, None, "bogus") + (("v23-6", "v23-10crc") if ver == 3 else ("v24-min", "v24-crc", "v24-all")))
+    if ext:
+        l["ext"] = ext
+    xf = rng.choice((0, 0, 0x20) if ver == 3 else (0, 0, 0x20, 0x10, 0x30))
+    if xf:
+        l["xflags"] = xf
+    return l
 
 
 def load_tag(data):
@@ -862,6 +950,13 @@ def oracle_layout(V, payload, layout, zcache=None, plain_views=None, stats=None)
     if stats is not None:
         stats(B)
     t = load_tag(B.raw)
+    if B.ext_stuffed and not isinstance(t, str) and not t.keys():
+        # v2.3, whole tag unsynchronised, and the stuffing falls inside the extended header (an FF in its CRC): a reader
+        # that cuts the extended header from the still stuffed bytes starts the frames late and loses all of them.
+        # Classified (one report per run, matched by a known finding); any other misreading of such a tag is judged below.
+        V(EXT_STUFFED_WHAT, dict(d, **{"class": EXT_STUFFED_CLASS, "tag": B.raw.hex() if len(B.raw) <= 400 else B.raw[:400].hex() + "...",
+                                       "observed": "loaded, no frame decoded; unknown=%d" % len(t.unknown_frames)}))
+        return False
     if isinstance(t, str):
         V("tag: hand-built tag does not load", dict(d, observed=t))
         return False
@@ -895,7 +990,7 @@ def oracle_layout(V, payload, layout, zcache=None, plain_views=None, stats=None)
               dict(d, frame=name, observed=repr(fr[0].text) if fr else None)); ok = False
     if tuple(t.version) != (2, layout["version"], 0):
         V("tag: version of the loaded tag differs from the header", dict(d, observed=list(t.version))); ok = False
-    if t.size != len(B.raw):
+    if t.size != len(B.raw) - len(B.footer):
         V("tag: header size (BitPaddedInt) differs from the tag length", dict(d, observed=t.size)); ok = False
     if t.unknown_frames:
         V("tag: a frame of the hand-built tag is not decoded (kept as unknown)", dict(d, observed=[bytes(u).hex() for u in t.unknown_frames][:2])); ok = False
@@ -910,15 +1005,45 @@ def oracle_layout(V, payload, layout, zcache=None, plain_views=None, stats=None)
     return ok
 
 
+EXT_STUFFED_WHAT = "tag: v2.3 extended header inside an unsynchronised tag is cut from the still-stuffed bytes (frames behind it are lost)"
+EXT_STUFFED_CLASS = "v23-ext-header-stuffed"
+EXT_STUFFED_LAYOUT = L(3, 1, 0, None, 0, 0, "v23-10crc")
+_directed = {}
+
+
+def directed_ext_stuffed():
+    """the shortest (then smallest) payload for which the CRC of the v2.3 extended header contains an FF that the
+    whole-tag unsynchronisation has to stuff -- found by enumeration, so it follows the frames of frame_bodies()"""
+    if "p" not in _directed:
+        _directed["p"] = None
+        for n in (0, 1, 2, 3):
+            for t in itertools.product(range(256), repeat=n):
+                if build_layout(EXT_STUFFED_LAYOUT, bytes(t)).ext_stuffed:
+                    _directed["p"] = bytes(t)
+                    break
+            if _directed["p"] is not None:
+                break
+    return _directed["p"]
+
+
 def run_tags(ctx, payloads, nmixed=3):
     V = _viol(ctx)
     rng = ctx.rng
+    # directed, both tiers: the stuffed v2.3 extended header (first, so that the one classified report is the minimal one)
+    p = directed_ext_stuffed()
+    if p is not None:
+        oracle_layout(V, p, EXT_STUFFED_LAYOUT)
+        ctx.oracle_cases += 1
+        ctx.count("tag:directed v2.3 extended header with a stuffed CRC")
+        ctx.case(b"tdx" + p)
 
     def stats(B):
         if B.stuffed:
             ctx.count("tag-content:stuffing inserted")
         if B.stuffed_deflate:
             ctx.count("tag-content:stuffing inside a deflate stream")
+        if B.ext_stuffed:
+            ctx.count("tag-content:v2.3 extended header itself stuffed")
         if B.ff00_plain:
             ctx.count("tag-content:FF 00 in the plaintext of a compressed unsynchronised frame")
 
@@ -933,7 +1058,7 @@ def run_tags(ctx, payloads, nmixed=3):
         for i, l in layouts:
             oracle_layout(V, p, l, zcache, plain, stats)
             ctx.oracle_cases += 1
-            ctx.count("tag:" + layout_name(l))
+            ctx.count("tag:" + (layout_name(l) if i < len(UNIFORM) else "v2.%d random mixture of per-frame and header flags" % l["version"]))
             ctx.case(b"t%d." % i + p if i < len(UNIFORM) else b"tm" + json.dumps(l, sort_keys=True).encode() + p)
     run_headers(ctx)
 
